@@ -191,10 +191,19 @@ func (f *File) register(path string) string {
 		alias = true
 	}
 
-	// If the name is invalid or has been registered already, make it unique by appending a number
+	// The prefix is only added if the name is an alias (a name that had to be changed is an alias)
+	prefixed := func(candidate string) string {
+		if f.PackagePrefix != "" && (alias || candidate != name) {
+			return f.PackagePrefix + "_" + candidate
+		}
+		return candidate
+	}
+
+	// If the name is invalid or has been registered already, make it unique by appending a number.
+	// The check is made on the name as it will be registered, i.e. with the prefix applied.
 	unique := name
 	i := 0
-	for !f.isValidAlias(unique) {
+	for !f.isValidAlias(prefixed(unique)) {
 		i++
 		unique = fmt.Sprintf("%s%d", name, i)
 	}
@@ -204,10 +213,7 @@ func (f *File) register(path string) string {
 		alias = true
 	}
 
-	// Only add a prefix if the name is an alias
-	if f.PackagePrefix != "" && alias {
-		unique = f.PackagePrefix + "_" + unique
-	}
+	unique = prefixed(unique)
 
 	// Register the eventual name
 	f.imports[path] = importdef{name: unique, alias: alias}
